@@ -162,5 +162,26 @@ for pname, (kind, src) in SRC.items():
                         break
                 for o in (obj, obj2):
                     o.close()
+# referents mode, no fault: a re-entrant manager entered twice (and three times, and interleaved with another one) in ONE frame is
+# active that many times - equal bound methods are different registrations
+ll.set_trickery_enabled(False)
+REENTRANT = {
+    "twice": ("gen", "def fn(M, T, A):\n    m = M('r')\n    with m:\n        with m:\n            A[:] = [m, m]; yield\n        A[:] = [m]; yield\n"),
+    "thrice-interleaved": ("gen", "def fn(M, T, A):\n    m = M('r'); o = M('o')\n    with m:\n        with o:\n            with m:\n                with m:\n                    A[:] = [m, o, m, m]; yield\n"),
+    "async-twice": ("coro", "async def fn(M, T, A):\n    m = M('r')\n    async with m:\n        async with m:\n            A[:] = [m, m]; await T()\n"),
+}
+for pname, (kind, src) in REENTRANT.items():
+    ns = {}
+    exec(compile(src, f"<c20r:{pname}>", "exec"), ns)
+    A = []
+    obj = ns["fn"](M, Trap, A)
+    while advance(kind, obj):
+        active = list(A)
+        key = ("reentrant-manager-referents-mode", pname, len(active))
+        leg.case(key, True)
+        ctxs, exc, w = inspect(frame_of(kind, obj), obj)
+        if exc is not None or w or not superset_in_order(ctxs, active) or len([c for c in ctxs if not c.is_exiting]) < len(active):
+            leg.violation(key, f"referents mode: {[(c.obj, c.is_exiting) for c in ctxs] if ctxs is not None else None} for active managers {active} "
+                               f"(raised={exc!r}, warnings={len(w or [])})")
 ll.set_trickery_enabled(None)
 leg.finish(exhaustive=True)
